@@ -415,6 +415,49 @@ func (h hook) OnDispatchEnd(_ context.Context, _ vgirpc.HookToken, info vgirpc.D
 	h.in.Log.Add("hook", "end", info.Method, Evt{Inst: h.in.Name, Route: info.Method, Auth: authString(info.Auth), Stream: info.StreamID, Tag: info.TransportMetadata["user_agent"]})
 }
 
+// strictRehydrate is a RehydrateFunc body as services write it: dispatch on
+// the method name, assert the state type that method mints, re-attach
+// whatever cannot be serialised (nothing here).
+func strictRehydrate(state interface{}, method string, assert bool) error {
+	check := func(ok bool) error {
+		if !ok {
+			return fmt.Errorf("method %s: unexpected state type %T", method, state)
+		}
+		return nil
+	}
+	switch method {
+	case "prod", "prod2", "prodh", "dynp":
+		if assert {
+			_ = state.(*ProdState)
+			return nil
+		}
+		_, ok := state.(*ProdState)
+		return check(ok)
+	case "prodB":
+		if assert {
+			_ = state.(*ProdStateB)
+			return nil
+		}
+		_, ok := state.(*ProdStateB)
+		return check(ok)
+	case "exch", "exch2", "exchh", "dyne":
+		if assert {
+			_ = state.(*ExchState)
+			return nil
+		}
+		_, ok := state.(*ExchState)
+		return check(ok)
+	case "exchB":
+		if assert {
+			_ = state.(*ExchStateB)
+			return nil
+		}
+		_, ok := state.(*ExchStateB)
+		return check(ok)
+	}
+	return nil
+}
+
 // Opt configures one server instance.
 type Opt struct {
 	Key          []byte        // token key (>= 16 bytes); nil => fixed default
@@ -423,6 +466,11 @@ type Opt struct {
 	Sticky       bool
 	ServerID     string
 	BatchLimit   int // producer batches per response; 0 => 1
+	// Rehydrate selects the RehydrateFunc: "" / "logging" only logs;
+	// "strict-assert" additionally does what applications do — a per-method
+	// switch that type-asserts the state (panics on a foreign type);
+	// "strict-error" returns an error for an unexpected type instead.
+	Rehydrate string
 }
 
 // Instance is one HttpServer with its own Server, sharing a log.
@@ -480,6 +528,12 @@ func NewInstance(log *mon.Log, name string, o Opt) *Instance {
 	h.SetEnableNotFoundPage(false)
 	h.SetRehydrateFunc(func(state interface{}, method string) error {
 		log.Add("rehydrate", "rehydrate", method, Evt{Inst: name, Route: method, State: strings.TrimPrefix(fmt.Sprintf("%T", state), "*we.")})
+		switch o.Rehydrate {
+		case "strict-assert":
+			strictRehydrate(state, method, true)
+		case "strict-error":
+			return strictRehydrate(state, method, false)
+		}
 		return nil
 	})
 	if o.Sticky {
